@@ -448,6 +448,10 @@ class Pipeline:
 
     def _clear_internal_cache(self) -> None:
         clear_cached_properties(self)
+        # The pipeline was modified (functions, defaults, bound values, renames, ...):
+        # results computed by the old pipeline must not be returned by the new one.
+        if getattr(self, "cache", None) is not None:
+            self.cache.clear()
 
     def __call__(self, __output_name__: OUTPUT_TYPE | None = None, /, **kwargs: Any) -> Any:
         """Call the pipeline for a specific return value.
